@@ -1099,6 +1099,10 @@ func c03Constructors(c *Ctx) {
 		ok := sc != nil && fe != nil && fc != nil
 		zero := ts.LinConst(0, u)
 		paths := ev.Run(fn)
+		if !ok {
+			c.Unresolved("circuitbreaker.newHalfOpenState", "the breaker's configuration is not reachable from the constructor's first parameter")
+			paths = nil
+		}
 		for _, p := range paths {
 			if p.Exit != ExitReturn || len(p.Rets) != 1 {
 				ok = false
@@ -1639,7 +1643,13 @@ func c03Metrics(c *Ctx) {
 		cfg := ev.Param(fn, fn.Params[0].Name())
 		period := ev.LoadField(ev.NewState(), cfg, "failureThresholdingPeriod")
 		timeBased := ev.Param(fn, "supportsTimeBased")
-		for _, p := range ev.Run(fn) {
+		paths := ev.Run(fn)
+		if cfg == nil || period == nil || timeBased == nil {
+			ok = false
+			c.Unresolved("circuitbreaker.newStats", "the configuration / time-based flag parameters of the stats factory are not found")
+			paths = nil
+		}
+		for _, p := range paths {
 			tb := triAnd(p.State.Facts.Truth(ts, timeBased), p.State.Facts.Truth(ts, ts.Cmp("!=", period, ts.LinConst(0, period.Typ))))
 			nt := eventsWhere(p, func(e *Event) bool { return isCall(e, "newTimedStats") })
 			nc := eventsWhere(p, func(e *Event) bool { return isCall(e, "newCountingStats") })
